@@ -313,8 +313,10 @@ Proof.
       rewrite app_nil_r, wrote_forest. cbn [existsb]. rewrite Hrep. reflexivity. }
     unfold finish_inv in Hhis. destruct ret as [er|].
     + inversion Hhis; subst. cbn [v_hw v_auto]. auto.
-    + rewrite Hwr in Hhis. rewrite !andb_false_r in Hhis. cbn [andb] in Hhis.
-      destruct (drain (c_ws c) fuel s2) as [e3 s3]. inversion Hhis; subst. cbn [v_hw v_auto]. auto.
+    + rewrite Hwr in Hhis. rewrite !andb_false_r in Hhis. cbn [andb orb] in Hhis.
+      destruct (c_oclosed c && negb (is_nil (w_out w'))).
+      * inversion Hhis; subst. cbn [v_hw v_auto]. auto.
+      * destruct (drain (c_ws c) fuel s2) as [e3 s3]. inversion Hhis; subst. cbn [v_hw v_auto]. auto.
   - right. subst w'. unfold finish_inv in Hhis. destruct ret as [er|]; [|congruence].
     inversion Hhis; subst. cbn [v_hw v_auto v_ret w0 w_out]. repeat split; discriminate.
 Qed.
@@ -398,7 +400,7 @@ Lemma c07_serve c hf toks base : ends_match base toks = true ->
 Proof. intros Hm r. apply (follows_invs c toks). apply (c08_serve_follows c hf toks base Hm). Qed.
 
 (* the pinned multiplexer: an IQ without payload is not answered at all *)
-Definition ex_cfg : cfg := mkcfg false sv_ns_client (str "me@example.net") (fun s => Some s).
+Definition ex_cfg : cfg := mkcfg false sv_ns_client (str "me@example.net") (fun s => Some s) false.
 Definition ex_empty_iq : list token :=
   [TStart (mkname sv_ns_client s_iq) [mk_attr s_type sv_iq_get; mk_attr s_id (str "x")];
    TEnd (mkname sv_ns_client s_iq); TEnd stream_root].
